@@ -157,6 +157,13 @@ class World(object):
         if mt is None or mb is None:
             return
         if mb.owner is not None:
+            if op.get("share") and mb.owner != self.tracks.index(mt):
+                mb.shared = True
+                self.probes["bar_object_shared_by_two_tracks"] += 1  # a doubling: two tracks hold the same Bar object
+                mt.obj.add_bar(mb.obj)
+                mt.bars.append(self.bars.index(mb))
+                self.trace.ev("tadd_share", op["track"], op["bar"])
+                return
             if not op.get("again") or mb.owner != self.tracks.index(mt):
                 return
             self.probes["same_bar_object_added_again"] += 1  # the same Bar object twice in one track: it is played / written twice
@@ -201,6 +208,100 @@ class World(object):
             self.probes["container_not_ascending_after_item_assignment"] += 1
         self.trace.ev("setnote", op["bar"], i, j, list(spec))
 
+    def op_transpose(self, op):
+        """music is transposed after it was built (container, bar or track level, public API): every
+        note moves by the interval's semitones and stays the note it was - its channel and velocity"""
+        SEMI = {"1": 0, "2": 2, "3": 4, "4": 5, "5": 7, "6": 9, "7": 11}
+        sh = op["interval"]
+        delta = SEMI[sh[-1]] + sh.count("#") - sh.count("b")
+        if not op.get("up", True):
+            delta = -delta
+        level = op.get("level", "nc")
+        if level == "track":
+            mt = self.pick(self.tracks, op["ref"])
+            if mt is None or not mt.bars:
+                return
+            bar_ids = list(dict.fromkeys(mt.bars))
+            target = mt.obj
+        else:
+            mb0 = self.pick(self.bars, op["ref"])
+            if mb0 is None:
+                return
+            bar_ids = [self.bars.index(mb0)]
+            target = mb0.obj
+        mbs = [self.bars[i] for i in bar_ids]
+        if level == "track" and any(self.bars[i].owner != self.tracks.index(mt) or getattr(self.bars[i], "shared", False) for i in bar_ids):
+            return
+        if level == "track" and len(bar_ids) != len(mt.bars):
+            return  # a bar object that sits in the track twice would move twice
+        todo = []  # (model entry, library container)
+        for mb in mbs:
+            if not self._bar_consistent(mb):
+                return
+            for i, e in enumerate(mb.entries):
+                if e["notes"]:
+                    todo.append((e, mb.obj.bar[i][2]))
+        if level == "nc":
+            if not todo:
+                return
+            todo = [todo[op.get("entry", 0) % len(todo)]]
+            target = todo[0][1]
+        for e, nc in todo:
+            if len(set(score.pitch_of(n[0], n[1]) for n in e["notes"])) != len(e["notes"]):
+                return  # a unison doubling inside the container: notes cannot be told apart by pitch
+            for n in e["notes"]:
+                p = score.pitch_of(n[0], n[1]) + delta
+                if not (-12 <= p <= 115):
+                    return  # would leave the MIDI range
+        target.transpose(sh, op.get("up", True))
+        for e, nc in todo:
+            want = [score.pitch_of(n[0], n[1]) + delta for n in e["notes"]]
+            lib = list(nc.notes)
+            got = {}
+            for ln in lib:
+                try:
+                    got.setdefault(score.pitch_of(ln.name, ln.octave), (ln.name, ln.octave))
+                except Exception:
+                    pass
+            if len(lib) != len(want) or any(w not in got for w in want) or len(set(want)) != len(want):
+                # the transposition itself went wrong: that is C11's rule, nothing here is judged on this bar any more
+                self.probes["transposition_not_semitone_exact"] += 1
+                try:
+                    adopted = [(ln.name, ln.octave, ln.channel, ln.velocity) for ln in lib]
+                    [score.pitch_of(a[0], a[1]) for a in adopted]
+                    e["notes"] = adopted
+                except Exception:
+                    pass  # unreadable names: the model keeps what was built and the bar is judged against that
+                continue
+            e["notes"] = [(got[w][0], got[w][1], n[2], n[3]) for w, n in zip(want, e["notes"])]
+        self.probes["music_transposed_after_building"] += 1
+        self.trace.ev("transpose", level, op["ref"], sh, op.get("up", True))
+
+    def op_peek(self, op):
+        """someone looks at the music before it is played or written: a loop over a track, bar or
+        container that is left early (public iteration protocol, read only)"""
+        what = op.get("what", "track")
+        if what == "track":
+            m = self.pick(self.tracks, op["ref"])
+        else:
+            m = self.pick(self.bars, op["ref"])
+        if m is None:
+            return
+        obj = m.obj
+        if what == "nc":
+            cs = [e[2] for e in obj.bar if e[2] is not None]
+            if not cs:
+                return
+            obj = cs[op.get("entry", 0) % len(cs)]
+        k = 0
+        for _x in obj:
+            k += 1
+            if k >= op.get("n", 1):
+                break
+        len(obj)
+        self.probes["iteration_left_early_before_use"] += 1
+        self.trace.ev("peek", what, op["ref"], k)
+
     def op_theory(self, op):
         """Theory chatter: the program asks the core modules something (interval, chord, scale, key, note
         arithmetic - also with names the library rejects) between building and playing / writing.  The
@@ -217,7 +318,13 @@ class World(object):
             try:
                 mod = importlib.import_module("mingus.core." + c["mod"])
                 fn = getattr(mod, c["fn"])
-                lb.call(fn, *copy.deepcopy(c["args"]))
+                def ask():
+                    r = fn(*copy.deepcopy(c["args"]), **copy.deepcopy(c.get("kw", {})))
+                    if c.get("then"):
+                        r = getattr(r, c["then"][0])(*copy.deepcopy(c["then"][1:]))
+                    return r
+
+                lb.call(ask)
                 out = "ok"
             except SimBudgetExceeded:
                 out = "stall"  # a question that never returns is another property's business
@@ -270,9 +377,15 @@ class World(object):
 
     # -- consistency between model and library objects ------------------
     def bar_consistent(self, mb):
-        """The library bar holds exactly the entries the model recorded
-        (count, rest/notes kind, note tuples).  If not, some other property's
-        rule interfered; the caller skips judging with this bar."""
+        """Does the library bar hold exactly the entries the model recorded (count, rest/notes kind, note
+        tuples)?  Observation only (a probe): the callers judge by the model either way."""
+        if not self._bar_consistent(mb):
+            # Never seen on the unchanged tree.  The music is what was built through the public API (the model);
+            # a bar that silently became something else is judged against that, not excused.
+            self.probes["library_bar_differs_from_what_was_built"] += 1
+        return True
+
+    def _bar_consistent(self, mb):
         try:
             lib = mb.obj.bar
             if len(lib) != len(mb.entries):
@@ -307,7 +420,7 @@ def _chatter_entries():
     if _CHATTER_ENTRIES is None:
         from . import catalog
 
-        _CHATTER_ENTRIES = [e for e in catalog.CATALOG if e["mod"] in CHATTER_CORE and "then" not in e and "kw" not in e]
+        _CHATTER_ENTRIES = [e for e in catalog.CATALOG if e["mod"] in CHATTER_CORE]
     return _CHATTER_ENTRIES
 
 
@@ -335,7 +448,7 @@ def gen_theory(rng):
         r = rng.random()
         if r < 0.35:
             e = rng.choice(_chatter_entries())
-            calls.append({"mod": e["mod"], "fn": e["fn"], "args": copy.deepcopy(e["args"])})
+            calls.append(dict({"mod": e["mod"], "fn": e["fn"], "args": copy.deepcopy(e["args"])}, **{k: copy.deepcopy(e[k]) for k in ("then", "kw") if k in e}))
         elif r < 0.65:
             fn = rng.choice(["note_to_int", "augment", "diminish", "reduce_accidentals", "remove_redundant_accidentals", "is_valid_note"])
             calls.append({"mod": "notes", "fn": fn, "args": [name()]})
@@ -344,17 +457,63 @@ def gen_theory(rng):
             calls.append({"mod": "intervals", "fn": fn, "args": [name(), rng.choice(MAJOR_KEYS + MINOR_KEYS)]})
         elif r < 0.88:
             calls.append({"mod": "intervals", "fn": "get_interval", "args": [name(), rng.randrange(0, 13), rng.choice(MAJOR_KEYS)]})
-        elif r < 0.94:
+        elif r < 0.92:
             calls.append({"mod": "intervals", "fn": rng.choice(["measure", "determine", "is_consonant"]), "args": [name(), name()]})
-        else:
+        elif r < 0.95:
             calls.append({"mod": rng.choice(["chords", "scales"]), "fn": "determine", "args": [[name() for _ in range(rng.choice([3, 3, 4]))]]})
+        else:
+            # chord symbols, also slash chords and polychords (the forms the container shorthands go through)
+            root = rng.choice(["C", "G", "F", "D", "A", "E", "Bb", "Eb", "F#", "B"])
+            kinds = ["", "m", "7", "M7", "m7", "dim", "aug", "sus4", "6", "9", "m7b5", "11", "13"]
+            sym = root + rng.choice(kinds)
+            form = rng.random()
+            if form < 0.35:
+                sym = rng.choice(["C", "G", "F", "D", "A", "E"]) + rng.choice(kinds[:5]) + "|" + sym
+            elif form < 0.55:
+                sym = sym + "/" + rng.choice(["C", "G", "E", "B", "F#"])
+            calls.append({"mod": "chords", "fn": "from_shorthand", "args": [sym]})
     return {"op": "theory", "calls": calls}
+
+
+def related_questions(rng, ops):
+    """Questions about the very material the program uses later: the same chord symbol inside a polychord
+    or over a bass note, the same interval from an enharmonic twin, the same names through the note
+    arithmetic.  A table keyed too coarsely, or a stored answer that a sibling call edits, shows only then."""
+    calls = []
+    twins = {"C": "B#", "F": "E#", "B": "Cb", "E": "Fb", "C#": "Db", "Db": "C#", "F#": "Gb", "Gb": "F#", "G#": "Ab", "Ab": "G#", "Eb": "D#", "Bb": "A#", "D": "C##", "G": "F##", "A": "G##"}
+    for op in ops:
+        if op.get("op") == "shorthand" and isinstance(op.get("sh"), str):
+            if op.get("kind") == "chord":
+                r = rng.random()
+                sym = op["sh"]
+                if r < 0.4:
+                    sym = rng.choice(["Dm", "C", "Am7", "G7", "F"]) + "|" + sym
+                elif r < 0.6:
+                    sym = sym + "/" + rng.choice(["C", "G", "E", "Bb"])
+                elif r < 0.8:
+                    sym = sym + "|" + rng.choice(["Dm", "C", "G"])
+                calls.append({"mod": "chords", "fn": "from_shorthand", "args": [sym]})
+            elif op.get("kind") == "interval" and isinstance(op.get("start"), str):
+                start = op["start"].split("-")[0]
+                calls.append({"mod": "intervals", "fn": "from_shorthand", "args": [twins.get(start, start), op["sh"], bool(op.get("up", True))]})
+            elif op.get("kind") == "progression":
+                calls.append({"mod": "progressions", "fn": "to_chords", "args": [[op["sh"]], rng.choice(MAJOR_KEYS)]})
+        for spec in (op.get("notes") or []) if isinstance(op.get("notes"), list) else []:
+            if isinstance(spec, (list, tuple)) and spec and isinstance(spec[0], str) and rng.random() < 0.3:
+                nm = spec[0]
+                calls.append({"mod": "notes", "fn": rng.choice(["augment", "diminish", "reduce_accidentals", "note_to_int"]), "args": [rng.choice([nm, twins.get(nm, nm), nm + "b", nm + "#"])]})
+    rng.shuffle(calls)
+    return {"op": "theory", "calls": calls[: rng.choice([1, 2, 4, 8])]} if calls else None
 
 
 def sprinkle_theory(rng, ops, p_head=0.3, p_between=0.03):
     """Insert chatter ops into a program: before anything is built (a process that
     has not converted a single note yet) and between the other steps."""
     out = []
+    if rng.random() < 0.12:
+        q = related_questions(rng, ops)
+        if q is not None:
+            out.append(q)
     if rng.random() < p_head:
         for _ in range(rng.choice([1, 1, 2])):
             out.append(gen_theory(rng))
@@ -375,13 +534,11 @@ ALL_KEYS = MAJOR_KEYS + MINOR_KEYS
 METERS = [[2, 4], [3, 4], [4, 4], [5, 4], [6, 8], [3, 8], [7, 8], [9, 8], [12, 8], [2, 2], [3, 2], [4, 2], [6, 4], [4, 8], [1, 4], [4, 16], [1, 1], [1, 8], [3, 16], [1, 16], [2, 16], [128, 4096], [64, 1024]]
 
 
-def gen_note(rng, channel=None, exotic=0.15, lo=0, hi=115, vel_lo=0):
-    """A note spec whose pitch+12 lies in 0..127."""
-    if rng.random() < 0.06:
-        # the edges of the MIDI range: pitch+12 of 0, 1, 126, 127 and channel 0 / 15
-        name, octave = rng.choice([("C", 0), ("C#", 0), ("Db", 0), ("B#", -1), ("G", 9), ("F#", 9), ("Gb", 9), ("F##", 9), ("Abb", 9)])
-        if name == "B#":
-            name, octave = "C", 0
+def gen_note(rng, channel=None, exotic=0.15, lo=-12, hi=115, vel_lo=0):
+    """A note spec whose pitch+12 lies in 0..127 (MIDI 0-11 are the library's octave -1)."""
+    if rng.random() < 0.08:
+        # the edges of the MIDI range: pitch+12 of 0, 1, 11, 12, 13, 126, 127 and channel 0 / 15
+        name, octave = rng.choice([("C", 0), ("C#", 0), ("Db", 0), ("C", -1), ("C#", -1), ("B", -1), ("F", -1), ("B#", -1), ("Cb", 0), ("G", 9), ("F#", 9), ("Gb", 9), ("F##", 9), ("Abb", 9)])
         p = score.pitch_of(name, octave)
         if lo <= p <= hi:
             ch = channel if channel is not None else rng.choice([0, 15])
